@@ -139,9 +139,14 @@ class Obj:
         snap = None if self.conf is None else _snapshot(self.conf, self.params)
         # the generic space-packet view is taken BEFORE this observation's pack(): a CRC / length cached by an earlier pack
         # must not survive a setter
+        # ... and on a copy (taken first) the other order: pack() first, with whatever it has cached from before the setter,
+        # then the view
+        alt = copy.deepcopy(o) if k in ("tc", "tm") else None
         spv = octs(o.to_space_packet().pack()) if k in ("tc", "tm") else None
+        alt_raw = None if alt is None else octs(alt.pack())
+        alt_spv = None if alt is None else octs(alt.to_space_packet().pack())
         raw = octs(self.pack())
-        spview = True if spv is None else spv == raw
+        spview = True if spv is None else (spv == raw and alt_raw == raw and alt_spv == raw)
         sibling = True
         if self.sib is not None:
             sibling = (octs(self.sib.pack()), int(self.sib.packet_len)) == self.sib_obs and self.sib_obs[1] == len(self.sib_obs[0])
